@@ -175,3 +175,47 @@ def cold_start():
         net_seams(lines=tuple(lines))
     else:
         pool_seams(lines="pool" in lines)
+
+
+class debug_logging(object):
+    """
+    with debug_logging(flag): the library's loggers at DEBUG level for the duration (as an application in debug mode
+    has them), so that the code that builds debug messages runs. Records go to a handler that formats and drops them.
+    """
+
+    def __init__(self, on):
+        self.on = bool(on)
+
+    def __enter__(self):
+        if not self.on:
+            return self
+        import logging
+
+        class Sink(logging.Handler):
+            def createLock(self):
+                # no lock of its own: formatting a record may run instrumented library code (__str__ of a Fault), and a
+                # simulated thread pre-empted there while holding a *real* lock would block the others for real
+                self.lock = None
+
+            def emit(self, record):
+                record.getMessage()  # formatting errors are the application's problem: let them show
+
+        self.logger = logging.getLogger("jsonrpclib")
+        self.old = (self.logger.level, self.logger.propagate)
+        self.handler = Sink()
+        self.logger.addHandler(self.handler)
+        self.logger.setLevel(logging.DEBUG)
+        self.logger.propagate = False
+        self.disabled = logging.root.manager.disable
+        logging.disable(logging.NOTSET)  # repo() switches logging off process-wide
+        return self
+
+    def __exit__(self, *exc):
+        if self.on:
+            self.logger.removeHandler(self.handler)
+            self.logger.setLevel(self.old[0])
+            self.logger.propagate = self.old[1]
+            import logging
+
+            logging.disable(self.disabled)
+        return False
